@@ -180,25 +180,36 @@ def judge_header(ctx, bad, part="header"):
 
 
 def bind_header(ctx, corpus):
-    ev = ctx.work / "header.ndjson"
-    args = ["c10-header", f"corpus={corpus}", f"seed={ctx.seed}", f"tier={ctx.tier}", f"out={ev}"]
-    vh(args, timeout=1200)
-    n, bad = validate_calls(ctx, "Trace_TfmHeader", "Trace_TfmHeader.cfg", ev, timeout=1500)
+    """One recorder run per base file (keeps every event file below ~200 MB in the thorough tier)."""
+    nbases = int(vh(["c10-header", f"corpus={corpus}", "bases=1"]).stdout.decode().strip())
+    total = 0
     kinds = {}
-    distinct = set()
+    distinct = 0
     sample = None
-    with open(ev) as f:
-        for i, line in enumerate(f):
-            e = json.loads(line)
-            kinds[e["kind"]] = kinds.get(e["kind"], 0) + 1
-            distinct.add((e["len"], tuple(e["b"])))
-            if i == 4321:
-                sample = e
-    ctx.add_bound("TfmHeader.calls", n, len(distinct), outcome_kinds=kinds)
+    for base in (["all"] if ctx.quick else list(range(nbases)) + ["pairs"]):
+        ev = ctx.work / f"header-{base}.ndjson"
+        vh(["c10-header", f"corpus={corpus}", f"seed={ctx.seed}", f"tier={ctx.tier}", f"out={ev}"]
+           + ([] if base == "all" else [f"base={base}"]), timeout=1200)
+        n, bad = validate_calls(ctx, "Trace_TfmHeader", "Trace_TfmHeader.cfg", ev, timeout=1500,
+                                parts=8 if ctx.quick else None)
+        seen = set()
+        with open(ev) as f:
+            for i, line in enumerate(f):
+                e = json.loads(line)
+                kinds[e["kind"]] = kinds.get(e["kind"], 0) + 1
+                seen.add((e["len"], tuple(e["b"])))
+                if base in ("pairs", "all") and i == 321:
+                    sample = e
+        distinct += len(seen)
+        total += n
+        judge_header(ctx, bad)
+        ev.unlink()
+        for c in ctx.work.glob(f"header-{base}-c-*.ndjson"):
+            c.unlink()
+    ctx.add_bound("TfmHeader.calls", total, distinct, outcome_kinds=kinds, base_files=nbases)
     if sample:
         ctx.sample({"header_event": sample})
-    judge_header(ctx, bad)
-    return n
+    return total
 
 
 # --------------------------------------------------------------------------------------
@@ -247,47 +258,68 @@ def run_shard(ctx, corpus, scale, shard, nshards, timeout_ms):
     raise ToolError(f"harness shard {shard} keeps dying")
 
 
-def reorder_reset(line):
-    """The harness writes keys alphabetically; vlib's convention wants lines that start with {"ev":"reset"."""
-    return line
+def is_reset(line):
+    return b'"ev":"reset"' in line
 
 
-def validate_pipe(ctx, files):
-    """Split at run boundaries, validate every chunk with Trace_Codec, return (#runs, #events, verdicts)
-    where a verdict is (reset event, events of the run, verdict payload, unmatched event)."""
-    lines = []
+def validate_pipe(ctx, files, max_lines=200000):
+    """Cut the recorded runs into chunks at run boundaries (streaming), validate every chunk with
+    Trace_Codec, and return (#runs, #events, verdicts) where a verdict is
+    (reset event, events of the run, verdict payload, unmatched event)."""
+    chunks = []
+    nruns = nev = 0
+    cur = None
+    cur_lines = 0
+    total = sum(count_lines(f) for f in files)
+    target = max(3000, min(max_lines, total // (8 if ctx.quick else max(1, NCPU - 2)) + 1))
+
+    def close():
+        nonlocal cur, cur_lines
+        if cur is not None:
+            cur.write(b'{"ev":"end"}\n')
+            cur.close()
+        cur, cur_lines = None, 0
+
     for f in files:
         with open(f, "rb") as fh:
-            lines += [ln for ln in fh if ln.strip()]
-    starts = [i for i, ln in enumerate(lines) if b'"ev":"reset"' in ln and json.loads(ln).get("ev") == "reset"]
-    if not starts or starts[0] != 0:
-        raise ToolError("converter trace does not start with a reset event")
-    nruns = len(starts)
-    parts = max(1, min(NCPU - 2, nruns, len(lines) // 3000 + 1))
-    bounds = starts + [len(lines)]
-    chunks = []
-    for i in range(parts):
-        a, b = i * nruns // parts, (i + 1) * nruns // parts
-        if a < b:
-            p = ctx.work / f"codec-{i:02d}.ndjson"
-            with open(p, "wb") as fh:
-                fh.writelines(lines[bounds[a]:bounds[b]])
-                fh.write(b'{"ev":"end"}\n')
-            chunks.append((p, bounds[a], bounds[b]))
-    vs = tlc_validate(ctx, "Trace_Codec", "Trace_Codec.cfg", [c[0] for c in chunks], timeout=2400)
+            for line in fh:
+                if not line.strip():
+                    continue
+                if is_reset(line):
+                    nruns += 1
+                    if cur is not None and cur_lines >= target:
+                        close()
+                if cur is None:
+                    if not is_reset(line):
+                        raise ToolError(f"converter trace {f} does not start with a reset event")
+                    p = ctx.work / f"codec-{len(chunks):03d}.ndjson"
+                    chunks.append(p)
+                    cur = open(p, "wb")
+                cur.write(line)
+                cur_lines += 1
+                nev += 1
+        close()  # a part file always ends a run (crash / hang events are appended to it)
+    if not chunks:
+        raise ToolError("no converter runs recorded")
+    vs = tlc_validate(ctx, "Trace_Codec", "Trace_Codec.cfg", chunks, timeout=2400)
     out = []
-    for (p, a, b), v in zip(chunks, vs):
+    for p, v in zip(chunks, vs):
         if not v.accepted:
             raise ToolError(f"trace validation stopped early in {p} at line {v.matched + 1}: {v.out[-2000:]}")
+        if not v.verdicts:
+            continue
+        lines = p.read_bytes().splitlines()
+        starts = [i for i, ln in enumerate(lines) if is_reset(ln)]
+        bounds = starts + [len(lines) - 1]  # the last line is the end event
         for verdict in v.verdicts:
-            gl = a + verdict["l"] - 1  # global 0-based index of the event
+            gl = verdict["l"] - 1  # 0-based index of the event in the chunk
             if verdict.get("key") == "incomplete":
                 gl -= 1  # reported at the boundary that follows the incomplete run
-            gl = min(gl, b - 1)
-            ti = max(i for i, s in enumerate(starts) if s <= gl)
+            gl = max(0, min(gl, len(lines) - 2))
+            ti = max(i for i, st in enumerate(starts) if st <= gl)
             run = [json.loads(x) for x in lines[bounds[ti]:bounds[ti + 1]]]
             out.append((run[0], run, verdict, json.loads(lines[gl])))
-    return nruns, len(lines), out
+    return nruns, nev, out
 
 
 def materialise(ctx, corpus, scale, job, dest):
@@ -339,18 +371,26 @@ def judge_pipe(ctx, corpus, scale, verdicts):
     return seen
 
 
-def bind_pipe(ctx, corpus):
-    q = ctx.quick
-    scale = float(os.environ.get("C10_SCALE", "0.1" if q else "1.0"))
-    nshards = 8 if q else 12
-    with cf.ThreadPoolExecutor(max_workers=nshards) as ex:
-        futs = [ex.submit(run_shard, ctx, corpus, scale, s, nshards, 300000) for s in range(nshards)]
-        files = [p for f in futs for p in f.result()]
+def pipe_scale(ctx):
+    return float(os.environ.get("C10_SCALE", "0.1" if ctx.quick else "1.0"))
+
+
+def record_pipe(ctx, corpus, ex):
+    """Start the recorder shards (they run while the header events are being validated)."""
+    scale = pipe_scale(ctx)
+    nshards = 6 if ctx.quick else 12
+    return [ex.submit(run_shard, ctx, corpus, scale, s, nshards, 300000) for s in range(nshards)]
+
+
+def bind_pipe(ctx, corpus, shard_futs):
+    scale = pipe_scale(ctx)
+    files = [p for f in shard_futs for p in f.result()]
     log(f"[c10] converter runs recorded {time.time() - ctx.t0:.1f}s after start")
     nruns, nev, verdicts = validate_pipe(ctx, files)
     log(f"[c10] converter runs validated {time.time() - ctx.t0:.1f}s after start")
     # accounting
     classes, calls = {}, {"tfm_to_pl": 0, "pl_to_tfm": 0, "tfm_to_pl(output)": 0}
+    outcomes = {}
     mutated = 0
     sample = None
     for f in files:
@@ -366,7 +406,12 @@ def bind_pipe(ctx, corpus):
                     calls[k] += 1
                     if sample is None and e.get("src") == "output":
                         sample = e
-    ctx.add_bound("CodecProtocol.runs", nruns, mutated, events=nev, calls=calls, input_classes=classes)
+                elif e["ev"] == "ret" and e["f"] == "tfm_to_pl":
+                    outcomes[e["out"]] = outcomes.get(e["out"], 0) + 1
+                elif e["ev"] in ("panic", "hang", "crash"):
+                    outcomes[e["ev"]] = outcomes.get(e["ev"], 0) + 1
+    ctx.add_bound("CodecProtocol.runs", nruns, mutated, events=nev, calls=calls, input_classes=classes,
+                  tfm_to_pl_outcomes=outcomes)
     if sample:
         ctx.sample({"codec_event": sample})
     judge_pipe(ctx, corpus, scale, verdicts)
@@ -385,14 +430,15 @@ def run(ctx):
         "(not a corpus file as is)."
     )
     jobs = model_jobs(ctx)
-    with cf.ThreadPoolExecutor(max_workers=4 if ctx.quick else 5) as ex:
+    with cf.ThreadPoolExecutor(max_workers=12) as rec, cf.ThreadPoolExecutor(max_workers=3 if ctx.quick else 5) as ex:
+        shard_futs = record_pipe(ctx, corpus, rec)
         futs = [(j, ex.submit(j[2])) for j in jobs]
         t = time.time()
         bind_header(ctx, corpus)
         log(f"[c10] header binding {time.time() - t:.1f}s")
         t = time.time()
-        bind_pipe(ctx, corpus)
-        log(f"[c10] converter binding {time.time() - t:.1f}s")
+        bind_pipe(ctx, corpus, shard_futs)
+        log(f"[c10] converter binding {time.time() - t:.1f}s more")
         t = time.time()
         finish_models(ctx, futs)
         log(f"[c10] waited {time.time() - t:.1f}s more for the model steps")
